@@ -202,6 +202,21 @@ def run(rep, tier, seed, model_ok=True, effort=1):
                         continue
                     if pv(new.rsplit(".", 1)[0]) < pv(old.rsplit(".", 1)[0]):
                         rep.violation("bump moved calendar parts backwards", input=dict(pattern=pat2, old=old, new=new, date=str(d_new)), **{"class": "bump-backwards"})
+    # ---- (4c) bumps without --date use the day on which they run: a sequence of days in one process (any order), each bump shows its own day
+    saved_today = impl.bv_version.TODAY
+    try:
+        for pat2 in ("YYYY.0M.0D.BUILD", "YYYY.JJJ.BUILD", "GGGG.0V.BUILD", "YYYY.WW.BUILD"):
+            old = render(impl, pat2, dt.date(2019, 2, 3))
+            for d_run in (dt.date(2023, 3, 14), dt.date(2021, 6, 7), dt.date(2024, 12, 31), dt.date(2020, 1, 1)):
+                impl.set_today(d_run)
+                new = impl.v2version.incr(old, pat2)
+                want = render(impl, pat2, d_run).rsplit(".", 1)[0]
+                rep.case(("bump-today", pat2, str(d_run)), nontrivial=new is not None)
+                rep.count("bump-today")
+                if new is None or new.rsplit(".", 1)[0] != want:
+                    rep.violation("a bump without --date does not show the day on which it runs", input=dict(pattern=pat2, old=old, new=new, today=str(d_run), want_calendar=want), **{"class": "bump-today"})
+    finally:
+        impl.set_today(saved_today)
     if model_ok:
         bad, errs = common.coq_eval("c14cal", HDR, "Z * N * Z", "fun '(a, n, ck) => Z.eqb (checksum a n) ck", items, shard=2)
         for i in bad:
